@@ -19,12 +19,24 @@ def npc():
 
 # ---------------------------------------------------------------------------------------------
 # sites and the harness's own operator tables
-def make_site(kind, conserve=None):
+def make_site(kind, conserve=None, sort_charge=None):
     from tenpy.networks import site as S
+    kw = {} if sort_charge is None else {'sort_charge': sort_charge}
     if kind == 'spin':
-        return S.SpinHalfSite(conserve=conserve)
+        return S.SpinHalfSite(conserve=conserve, **kw)
     if kind == 'fermion':
-        return S.FermionSite(conserve=conserve)
+        return S.FermionSite(conserve=conserve, **kw)
+    if kind == 'fermion_renamed':
+        # the same fermions under other names: rename_op for C, Cd and add_op(..., need_JW=True) for a second pair of names
+        st = S.FermionSite(conserve=conserve, **kw)
+        c, cd = st.get_op('C').copy(), st.get_op('Cd').copy()
+        st.rename_op('C', 'A')
+        st.rename_op('Cd', 'Ad')
+        st.add_op('X', c, need_JW=True, hc='Xd')
+        st.add_op('Xd', cd, need_JW=True, hc='X')
+        st._verif_alias = {'A': 'C', 'Ad': 'Cd', 'X': 'C', 'Xd': 'Cd'}  # harness bookkeeping: new name -> own operator
+        st._verif_removed = ['C', 'Cd']
+        return st
     if kind == 'spinful':
         cons_N, cons_Sz = (conserve if isinstance(conserve, (list, tuple)) else (conserve, conserve))
         return S.SpinHalfFermionSite(cons_N=cons_N, cons_Sz=cons_Sz)
@@ -53,7 +65,7 @@ def own_ops(site):
         ops['Sigmaz'] = 2. * ops['Sz']
         ops['Sigmax'] = 2. * ops['Sx']
         ops['JW'] = np.eye(d)
-        fermionic = set()
+        fermionic = {'JW'}  # member of need_JW_string on every site (here the identity matrix)
     elif name == 'FermionSite':
         ops['C'] = ket_bra('empty', 'full')
         ops['Cd'] = ket_bra('full', 'empty')
@@ -115,6 +127,15 @@ def own_ops(site):
         fermionic.add('JW')
     else:
         raise ValueError(name)
+    alias = getattr(site, '_verif_alias', None)
+    if alias:
+        for new, old in alias.items():
+            ops[new] = ops[old]
+            if old in fermionic:
+                fermionic.add(new)
+        for old in getattr(site, '_verif_removed', []):
+            ops.pop(old, None)
+            fermionic.discard(old)
     return ops, fermionic
 
 
@@ -357,6 +378,21 @@ def sym_mpo(ctx, name, sites, wspec=None, markers=True, cplx=False, like=None, I
         Ds.append(D)
     H = MPO(sites, Ws, 'finite', IdL, IdR, max_range=None)
     return SymMPO(H, Ds, IdL, IdR)
+
+
+def dense_of_tenpy_mps(psi):
+    """state denoted by a tenpy MPS object (finite): S_0 G_0 S_1 ... S_L read from its stored tensors, forms and S"""
+    L = psi.L
+    cur = None
+    for i in range(L):
+        B = psi._B[i]
+        t = B.to_ndarray().transpose([B.get_leg_index(l) for l in ['vL', 'p', 'vR']])
+        fL, fR = psi.form[i]
+        t = t * _pw(np.asarray(psi._S[i]), 1. - fL)[:, None, None]
+        t = t * _pw(np.asarray(psi._S[i + 1]), -fR)[None, None, :]
+        cur = t[0] if cur is None else np.tensordot(cur, t, axes=[[-1], [0]])
+    cur = cur * np.asarray(psi._S[L])
+    return cur[..., 0]
 
 
 # ---------------------------------------------------------------------------------------------
